@@ -380,6 +380,9 @@ func checkVolumeLoop(w *World, r *Report, key string, mu *ssa.MapUpdate, g *ssa.
 			if ol.body[s] {
 				continue
 			}
+			if endsInPanic(s) {
+				continue
+			}
 			exits++
 			// an exit that only returns an error is not an end of the volume loop
 			t := s
